@@ -38,7 +38,14 @@ def token_io_readline(text):
     return io.StringIO(text).readline
 
 
+#: Maximum number of characters in an item of delimited data.
+_CSV_FIELD_SIZE_LIMIT = 2**31 - 1
+
+
 def csv_reader(source_text_stream, dialect=csv.excel, **keywords):
+    # By default the csv module refuses to read items with more than 128 KB, which it writes without complaint.
+    if csv.field_size_limit() < _CSV_FIELD_SIZE_LIMIT:
+        csv.field_size_limit(_CSV_FIELD_SIZE_LIMIT)
     return csv.reader(source_text_stream, dialect=dialect, **keywords)
 
 
